@@ -113,7 +113,7 @@ func runC04(c *Ctx) {
 		// which parameter carries the tested block?
 		ff := factsOf(df)
 		pidx := -1
-		for _, f := range ff.Facts {
+		for _, f := range deepFacts(df) { // the guard may sit in a helper of the delete function
 			if f.IsCmp && ((f.L.Any(heightOfBlock.F) && f.R.Any(finH.F)) || (f.R.Any(heightOfBlock.F) && f.L.Any(finH.F))) {
 				side := f.L
 				if !f.L.Any(heightOfBlock.F) {
@@ -159,7 +159,7 @@ func runC04(c *Ctx) {
 				"block argument is the result of Chain.LastBlock()", ok, "argument: "+t.String())
 		}
 	}
-	c.MinInstances("C04.R1 deleted-is-tip", n, 3)
+	c.MinInstances("C04.R1 deleted-is-tip", n, 2) // call sites of the delete function (two sync paths may share one loop)
 
 	// unexported removeBlock only from Chain.RemoveBlock
 	for _, s := range p.callSitesOf(rmBlock) {
